@@ -97,6 +97,61 @@ pub fn align_args(f: &Flags, n: usize) -> Vec<String> {
     a
 }
 
+/// `ska weed` computes floor(n*f): only use f where n*f is an exact integer (DESIGN §7)
+pub fn weed_freq(f: &Freq, n: usize) -> Freq {
+    if f.exact(n) {
+        return *f;
+    }
+    match f {
+        Freq::Half(s) => {
+            let r = Freq::Ratio(*s);
+            if r.exact(n) {
+                r
+            } else {
+                Freq::Zero
+            }
+        }
+        Freq::Dyadic(m) => {
+            let r = Freq::Ratio((*m as u16) << 13);
+            if r.exact(n) {
+                r
+            } else {
+                Freq::Zero
+            }
+        }
+        _ => Freq::Zero,
+    }
+}
+
+/// the filter `ska weed` applies for these flags, or None when it applies none
+pub fn weed_filter_spec(fl: &Flags, n: usize) -> (Flags, Option<FilterSpec>) {
+    let mut g = fl.clone();
+    g.freq = weed_freq(&fl.freq, n);
+    let threshold = g.freq.ceil(n);
+    let applies = threshold > 0 || g.kind != FilterKind::NoFilter || g.ambig_mask || g.no_gap_only;
+    if !applies {
+        // --filter-ambig-as-missing alone requests nothing (it qualifies --min-freq)
+        g.ambig_as_missing = false;
+        return (g, None);
+    }
+    let sp = FilterSpec { min_count: threshold.max(1), kind: g.kind, ambig_as_missing: g.ambig_as_missing, ambig_mask: g.ambig_mask, no_gap_only: g.no_gap_only };
+    (g, Some(sp))
+}
+
+pub fn weed_filter_args(g: &Flags, n: usize) -> Vec<String> {
+    let mut a = vec!["--min-freq".to_string(), g.freq.arg(n), "--filter".to_string(), g.kind.cli().to_string()];
+    if g.ambig_as_missing {
+        a.push("--filter-ambig-as-missing".into());
+    }
+    if g.ambig_mask {
+        a.push("--ambig-mask".into());
+    }
+    if g.no_gap_only {
+        a.push("--no-gap-only-sites".into());
+    }
+    a
+}
+
 fn inproc_align<IntT>(t: &Table, k: usize, rc: bool, f: &Flags) -> Result<Vec<(String, Vec<u8>)>, String>
 where
     IntT: for<'a> ska::ska_dict::bit_encoding::UInt<'a> + TryFrom<u128>,
